@@ -44,6 +44,10 @@ structure LProg where
   decls : List (Option Lit)
   body : LBlock
 
+def LBlock.isNil : LBlock → Bool
+  | .nil => true
+  | .cons _ _ => false
+
 /-! ## `Sem` with fuel -/
 
 /-- result of executing a statement: environment, observations, and whether a `break` is propagating -/
@@ -181,8 +185,9 @@ def LStmt.aexec (nv : Nat) (declOf : Nat → Atom) (cur : Pt) : LStmt → AOut
     ⟨finishLabel (rb.brks ++ e.1) rb.out, rb.obs, []⟩
   | .forNum a b body =>
     -- body bound from the `ForIStat` node (whose antecedent is the loop label, whose antecedent is `current`)
+    -- (an empty body has no block node: nothing is bound and the statement returns `current`)
     let rb := body.aexec nv declOf (.node (passNode nv cur))
-    if a ≤ b then ⟨finishLabel (rb.brks ++ [rb.out]) cur, rb.obs, []⟩ else ⟨cur, rb.obs, []⟩
+    if a ≤ b && !body.isNil then ⟨finishLabel (rb.brks ++ [rb.out]) cur, rb.obs, []⟩ else ⟨cur, rb.obs, []⟩
   | .forIn _ body =>
     let rb := body.aexec nv declOf cur
     ⟨cur, rb.obs, []⟩
